@@ -4,7 +4,7 @@ from engine import run_sim_check
 import drivercases as dc
 from asyncchecks import *
 
-THEOREMS = ["driver_send_fifo", "future_value_means_all_accepted", "partial_write_keeps_front", "arm_iff_nonempty", "destroy_breaks_promises"]
+THEOREMS = ["driver_send_fifo", "future_value_means_all_accepted", "partial_write_keeps_front", "resolves_only_front", "arm_only_that_descriptor", "sends_use_nosignal"]
 
 
 def generate(rnd, tier):
